@@ -95,6 +95,16 @@ CHECKS = {
         "note": "Parameter roles are identified by position in the public signatures.",
         "technique": "call-graph containment with argument-flow (who-must-call) on rustc MIR",
     },
+    "C36": {
+        "text": "Partial, static, over all 18 simulator hook impls (rustc MIR, resolved callees): (1) hooks for totally ordered inputs (selected by the TotalOrder argument of the impl's self type) "
+                "and snapshot hooks remove from their pending queue only at the front (pop_front / drain from a constant 0) - necessary for 'in-order prefix' and 'snapshots never go back'; "
+                "(2) in the 13 hooks that own a persistent pending queue every value taken out of the queue flows (may-taint over moves, iterator adaptors, container insertions, raw-pointer "
+                "writes) into the release slot and is never dropped on a normal path - 'no pending item is lost'; (3) every release_decision sends the complete slot (directly, or from a loop "
+                "that sends on every iteration and is left only when the slot is exhausted). NOT decided: the sizes the generator picks (prefix length, subset), per-key independence, forced "
+                "progress of run_hooks - run-time values.",
+        "note": "in-tick order hooks (SimInlineHook) are excluded from clause (2): they regroup a batch through temporary maps that are legitimately dropped when empty.",
+        "technique": "who-may-call rule on resolved VecDeque methods + forward may-taint (ownership) dataflow + must-pass-through / loop-exit analysis on rustc MIR",
+    },
     "C38": {
         "text": "Claimed as an absence argument: a replay with the same decision input can only diverge through a source of nondeterminism other than the recorded decisions. "
                 "Every non-test body of hydro_lang::sim::{runtime,compiled} (type-checked MIR) is scanned: no iteration in hash order over a RandomState HashMap/HashSet/"
